@@ -3,6 +3,7 @@ package props
 import (
 	"bytes"
 	"context"
+	"encoding/base64"
 	stdjson "encoding/json"
 	"fmt"
 	"io"
@@ -14,6 +15,7 @@ import (
 	"strings"
 	"sync"
 	"sync/atomic"
+	"testing/iotest"
 	"time"
 
 	gojson "github.com/goccy/go-json"
@@ -50,6 +52,45 @@ type c10Op struct {
 	// alone, if set, recomputes the call sequentially after the concurrent phase: the relation is
 	// "what the call returns alone", which for lenient utilities is go-json's own answer
 	alone func() string
+}
+
+// c10AllKinds has one member per decoder implementation: compiled decoders are shared by every
+// goroutine, so whatever a decoder object keeps between calls is shared memory.
+type c10AllKinds struct {
+	S   string
+	B   []byte
+	N   gojson.Number
+	I   int64
+	U   uint16
+	F   float64
+	Bo  bool
+	T   zoo.UT
+	TP  *zoo.UT
+	TS  zoo.UTS
+	TSl zoo.UTSl
+	UJ  zoo.UP
+	UJP *zoo.UP
+	M   map[string]string
+	MT  map[zoo.UTS]zoo.UTStr
+	MI  map[int]string
+	If  interface{}
+	Sl  []string
+	Ar  [2]string
+	P   *string
+	Q   int64  `json:",string"`
+	QS  string `json:",string"`
+	Raw gojson.RawMessage
+	E   struct{ X, Y string }
+	IfU gojson.Unmarshaler
+}
+
+func c10AllKindsDoc(id int) []byte {
+	w := fmt.Sprintf("g%07d", id)
+	ws := strings.Repeat(w, 5)
+	return []byte(fmt.Sprintf(`{"S":"s-%[1]s","B":"%[3]s","N":%[2]d.5,"I":-%[2]d,"U":%[4]d,"F":%[2]d.25,"Bo":%[5]v,"T":"t-%[1]s","TP":"tp-%[1]s","TS":"ts-%[1]s","TSl":"tsl-%[1]s",`+
+		`"UJ":{"uj":"%[1]s"},"UJP":["ujp","%[1]s"],"M":{"k-%[6]s":"v-%[1]s","a":"b"},"MT":{"mk-%[6]s":"mv-%[1]s"},"MI":{"%[2]d":"mi-%[6]s"},"If":{"if":["%[1]s",%[2]d]},`+
+		`"Sl":["a-%[6]s","b-%[1]s"],"Ar":["x-%[6]s","y-%[6]s"],"P":"p-%[1]s","Q":"%[2]d","QS":"\"qs-%[6]s\"","Raw":{"raw":"%[1]s"},"E":{"X":"ex-%[1]s","Y":"ey-%[6]s"},"IfU":{"ifu":"%[1]s"}}`,
+		ws, id, base64.StdEncoding.EncodeToString([]byte(ws)), id%65536, id%2 == 0, w))
 }
 
 var c10Next int64
@@ -104,7 +145,32 @@ func c10Trial(c *rt.Ctx, sub int, r *rand.Rand, G, procs, opsPer int, yieldMode 
 		var ops []c10Op
 		for k := 0; k < opsPer; k++ {
 			id := g*100000 + k
-			switch rr.Intn(24) {
+			switch rr.Intn(26) {
+			case 24, 25:
+				// a document only this call has, into one member per decoder kind, through a
+				// rotating entry point; the answer is encoding/json's for the same document
+				ops = append(ops, c10Op{name: "decode:all-kinds", run: func() (string, string) {
+					doc := c10AllKindsDoc(id)
+					var gv, sv c10AllKinds
+					gv.IfU, sv.IfU = &zoo.UP{}, &zoo.UP{}
+					var err error
+					switch id % 5 {
+					case 0:
+						err = gojson.Unmarshal(doc, &gv)
+					case 1:
+						err = gojson.NewDecoder(bytes.NewReader(doc)).Decode(&gv)
+					case 2:
+						err = gojson.NewDecoder(iotest.OneByteReader(bytes.NewReader(doc))).Decode(&gv)
+					case 3:
+						err = gojson.UnmarshalNoEscape(doc, &gv)
+					default:
+						err = gojson.UnmarshalContext(context.Background(), doc, &gv)
+					}
+					serr := stdjson.Unmarshal(doc, &sv)
+					g, _ := stdjson.Marshal(gv)
+					w, _ := stdjson.Marshal(sv)
+					return string(g) + errS(err), string(w) + errS(serr)
+				}})
 			case 22:
 				// a failing encode through a rotating entry point: the error paths release the
 				// pooled context too
